@@ -48,7 +48,7 @@ def run(t):
     run.cov["negative_controls"] = [v for v, _ in NEG]
     # real-time, hook-free run of the background loop in parallel with the replays
     rt = subprocess.Popen([vh, "health-realtime"], stdout=subprocess.PIPE, stderr=subprocess.PIPE)
-    cfgs = [f"Health_Gen_{i}.cfg" for i in range(1, 7)]
+    cfgs = [f"Health_Gen_{i}.cfg" for i in range(1, 7)] + ["Health_Gen_Stale.cfg"]   # Stale: 9 steps, enough Ticks to pass the staleness bound
     if t == "thorough":
         cfgs.append("Health_Gen_Deep.cfg")
     for cfg in cfgs:
@@ -57,6 +57,8 @@ def run(t):
         run.add_tlc(g, cfg)
         if not g.beh:
             raise NoVerdict(cfg + ": no behaviours")
+        if cfg == "Health_Gen_Stale.cfg" and not any(sum(1 for st in b["steps"] if st["a"] == "Tick") >= 7 for b in g.beh):
+            raise NoVerdict("no generated behaviour reaches staleness")
         _replay(run, vh, g.beh, cfg)
     g = run_tlc("Health_Gen", "Health_Gen_T2.cfg", timeout=600, workers=8)
     tlc_must_pass(g, "T2")
